@@ -2135,6 +2135,9 @@ def preprocess_file(
     if include_dirs is None:
         include_dirs = set()
     if file_path is not None:
+        # The directory of this file is searched for this file only, it must
+        # not stay on the caller's (server-wide) include path
+        include_dirs = set(include_dirs)
         include_dirs.add(os.path.abspath(os.path.dirname(file_path)))
     pp_skips = []
     pp_defines = []
